@@ -3,9 +3,13 @@ CONSTANTS
   Ads = {"conv_mem_v", "conv_pp_v"}
   Allocs = {"heap"}
   Grain = "call"
+  Ctxs = {"plain"}
+  ArgKinds = {"temp"}
   Res = {"r1"}
   Outcomes = {"val", "exc", "drop"}
   MaxRounds = 1
   FixVoidSrc = FALSE
-INVARIANTS TypeOK CallbackOnce RightOutcome HelperFreedOnce ConvertedValueOrException NoStuckState
+  ArmLate = {}
+  ArgsByRef = FALSE
+INVARIANTS TypeOK CallbackOnce RightOutcome HelperFreedOnce ConvertedValueOrException PublishedResumable ArgsAsPassed NoStuckState
 CHECK_DEADLOCK FALSE
